@@ -1767,6 +1767,15 @@ func (rpi RetentionPolicyInfo) clone() RetentionPolicyInfo {
 		}
 	}
 
+	// CreateSubscription appends to and DropSubscription shifts this slice in
+	// place: the copy must not share its backing array with rpi.
+	if rpi.Subscriptions != nil {
+		other.Subscriptions = make([]SubscriptionInfo, len(rpi.Subscriptions))
+		for i := range rpi.Subscriptions {
+			other.Subscriptions[i] = rpi.Subscriptions[i].clone()
+		}
+	}
+
 	return other
 }
 
@@ -2027,6 +2036,18 @@ type SubscriptionInfo struct {
 	Name         string
 	Mode         string
 	Destinations []string
+}
+
+// clone returns a deep copy of si.
+func (si SubscriptionInfo) clone() SubscriptionInfo {
+	other := si
+
+	if si.Destinations != nil {
+		other.Destinations = make([]string, len(si.Destinations))
+		copy(other.Destinations, si.Destinations)
+	}
+
+	return other
 }
 
 // marshal serializes to a protobuf representation.
